@@ -18,7 +18,7 @@ EXTRA_CORR = {
  "C14": " The translator also tracks elements of shared slices / maps and local aliases used after the lock was released; the stress also rotates credentials (ClearAuthenticators / AddAuthenticator) and sends 66 .. 140 KB values.",
  "C15": " Also: TLS clients whose certificate is refused / whose handshake fails (registry exactness); both ports enabled without a certificate (Start fails; Stop must release what was opened).",
  "C16": " Also: a server with a password where every client first sends a refused command, then AUTH, then works.",
- "C17": " Also: non-ASCII characters (valid UTF-8); SCAN continued from a non-zero cursor with another pattern on the same connection.",
+ "C17": " Also: non-ASCII characters (valid UTF-8); SCAN continued from a non-zero cursor with another pattern on the same connection; complete SCAN iterations (SCAN 0, then the returned cursors until 0) for every COUNT in {1,2,3,5,10,n-1,n,n+1} beside the store model, the collected keys compared with KEYS.",
  "C18": "",
  "C19": " Also: stray line breaks / lone type bytes before FIN; Server.Stop while a reply write waits for a stalled client, while idle and inside a request.",
  "C20": "",
@@ -49,7 +49,8 @@ claim("C06",
 claim("C17",
       "Theorem (all patterns, all keys, unbounded): the regular-expression text built from a glob lies in a parsed RE2 fragment (so compilation cannot fail) and its anchored "
       "dot-all match equals the glob relation; the text function and the match results are tied to redis/glob by differential execution over the complete pattern x key space "
-      "up to length 3 (4 thorough) plus random longer ones, with an independent direct matcher as monitor.",
+      "up to length 3 (4 thorough) plus random longer ones, with an independent direct matcher as monitor. KEYS and SCAN MATCH agree: on the model of the example store (Store.v), for every "
+      "database, pattern and COUNT, the client's SCAN iteration (SCAN 0, then the returned cursors until 0) ends within (keys + 1) calls and collects a permutation of the KEYS reply.",
       TB + "Go regexp semantics on the fragment are modelled by Glob.re_parse/re_match; ASCII domain.",
       "Coq theorem + differential execution of extracted model vs glob.Compile")
 
@@ -168,11 +169,12 @@ claim("C15",
       "invariant (20 clauses: WaitGroup counters = live goroutines, registry = registered connections, listener fields point to open listeners owned by live accept loops, ...) holds in "
       "every reachable state; hence while running every enabled port has an open listener with a live accept loop that accepts an arriving client; at the moment Stop returns no "
       "listener is open, the registry is empty, every accept loop and connection goroutine has returned with its socket closed; outside Stop's close phase the registry is exactly "
-      "the connections between registration and deregistration. Correspondence: every legal Start/Stop/Restart sequence up to length 4 (6 thorough) x {plain, TLS, both ports} with "
+      "the connections between registration and deregistration; Stop terminates (C15_stop_terminates: a measure every enabled step decreases, progress, closed sockets). Correspondence: every legal Start/Stop/Restart sequence up to length 4 (6 thorough) x {plain, TLS, both ports} with "
       "clients connecting / idling / disconnecting, random longer ones: per-step observations equal the model's prediction, and serving / re-bindable ports / closed clients / empty "
       "registry / goroutine baseline are checked on the real server.",
       LIFE_TB + "Partial: the interleavings explored on the implementation are those the Go scheduler produces (no forced schedule points); kernel listen backlog and TIME_WAIT are outside the model; "
-      "Stop's termination (liveness) is not proved.",
+      "Stop's termination is proved on the model (every execution after the listeners are closed is bounded by a measure, is never stuck before Stop returns, and waits only on closed sockets), "
+      "with 'close every registered and tracked socket' as one atomic step and 'a closed socket ends its goroutine's read' assumed of the Go runtime; one forced schedule (stoprace) ties that step to the code.",
       "Coq inductive invariant over all schedules of a lifecycle transition system + model-vs-server runs of lifecycle sequences")
 claim("C19",
       "Theorems: for EVERY input byte string, handler and admission outcome the connection trace registers once first (iff admitted), deregisters and closes exactly once last, and touches "
